@@ -40,6 +40,8 @@ def configs(tier):
                 out.append({"classes": cs, "rfunc": rf, "sort": so})
     # two distinct vertices that compare equal (value equality): neighbours are told apart by identity
     out.append({"classes": ["DE", "UE"], "rfunc": "uf", "sort": "none", "eqv": True})
+    # distinct vertices (members and neighbours) that carry one and the same uid: renderings go by object, not by uid
+    out.append({"classes": ["DE", "UE"], "rfunc": "uf", "sort": "none", "same_uid": True})
     return out
 
 
@@ -79,7 +81,8 @@ else:
 
 def scenario(B, p):
     verts = make_vertices(B, 3, ["EqVertex", "EqVertex", "Vertex"] if p.get("eqv") else
-                          (["Vertex", "NamedVertex", "Vertex"] if p["rfunc"] == "none" else None))
+                          (["Vertex", "NamedVertex", "Vertex"] if p["rfunc"] == "none" else None),
+                          uid=7 if p.get("same_uid") else None)
     links = make_links(B, p["classes"])
     n = len(links)
     symbolic_assoc_state(B, verts, links, n, n, two_ended_wellformed=True)
